@@ -1,5 +1,4 @@
-import ScVerif.C03.Inv
-import ScVerif.C03.Lossy
+import ScVerif.C03.Inv2
 /-!
 # C03 — property theorems
 
@@ -10,130 +9,247 @@ Get or List return. No change committed around the moment of subscribing is miss
 wrong state, no event overtakes a later commit so that the view ends stale, and the last event delivered for
 a Value is its final value."
 
-FULL-STRENGTH STATEMENT (`C03_converges`): for all initial contents, writer programs, subscribers and ALL
-schedules `sched`, if `run (initCfg …) sched` is quiescent then every registered subscriber's view equals
-the store.
+The model (`Model.lean`) has: any number of writers (arbitrary read-modify-write functions, conditional
+deletes), publications as commit ▸ listener copy ▸ per-listener delivery ▸ `Bus.collect`, Delete publishing
+under the lock, subscribers that are seeded or updates-only, backpressured (forwarder holds one event, the bus
+blocks) or lossy (merge stage: one pending change per id, ADD+REMOVE cancels), with a read mask (a
+projection), that may be cancelled at any step, and consumers of ANY pace (`recv` steps).
 
-This is FALSE for the code as it is (`C03_converges_fails`): `Value.set` and `Collection.Update` publish after
-releasing the lock, so the publications of two writers can reach a subscriber in the opposite order of their
-commits and the subscriber ends stale (recorded in known_findings/C03.json, replayed on the real code by the
-check).  What is proved for every schedule is `C03_converges_partial`, under the explicit, decidable
-hypothesis `ordered`: publications are delivered in commit order.  Only property theorems and non-vacuity
-examples live in this file.
+FULL-STRENGTH STATEMENT (`C03_converges`): for ALL schedules, at quiescence every live subscriber that has
+drained its stage sees the projection of the store.  This is FALSE for the code as it is, in two ways, both
+recorded in known_findings/C03.json and replayed on the real code by the check:
+* `C03_converges_fails` — publications of two writers delivered in the opposite order of their commits;
+* `C03_lossy_seed_dup_fails` — single writer: a lossy subscriber seeded with a change that is published only
+  afterwards; the merge stage cancels that duplicate ADD against a later REMOVE.
+What is proved for every schedule satisfying the explicit decidable hypothesis `ordered` is
+`C03_converges_partial`; `C03_no_miss_at_subscribe` holds for ALL schedules; `C03_dup_harmless` and
+`C03_lossy_seed_dup_fails` say exactly where a duplicate of the seed is harmless and where it is not.
+Only property theorems and non-vacuity examples live in this file.
 -/
 namespace ScVerif.C03
 open ScVerif.C02 (setAt)
 
 variable {M : Type} [DecidableEq M]
 
-/-- **Convergence, partial.**  For every initial contents, all writer programs (any number of writers, any
-operations incl. arbitrary read-modify-write functions and conditional deletes), any subscribers (seeded or
-updates-only, subscribing at any point of the run) and every schedule in which publications are delivered in
-commit order (`ordered`): at every moment, each registered subscriber's view followed by the events still
-owed to it is the store; hence at quiescence (nothing in flight) its view IS the store — nothing committed
-around the subscribe step was missed or duplicated into a wrong state. -/
-theorem C03_converges_partial (s₀ : Nat → Option M) (progs : Nat → List (WOp M)) (uo : Nat → Bool)
-    (sched : List Act) (hord : ordered (initCfg s₀ progs uo) sched = true) :
-    let c : Cfg M := run (initCfg s₀ progs uo) sched
-    (∀ s, (c.subs s).registered = true → (inflight c s).foldl applyEv (c.subs s).view = c.store) ∧
-    (c.quiescent = true → ∀ s, (c.subs s).registered = true → (c.subs s).view = c.store) := by
+/-- **Convergence, partial** (publications delivered in commit order; subscriber churn, any consumer pace, lossy
+or backpressured stage, read masks).  For all contents, writer programs, subscriber options and every schedule
+of commit / snapshot / deliver / subscribe / cancel / consumer-receive steps that is `ordered`:
+at every moment, for every LIVE subscriber (registered, not cancelled) its raw view followed by what sits in
+its stage (forwarder in hand, or the merger's pending changes after any number of merges and ADD+REMOVE
+cancellations) followed by the events still owed to it is the store; hence once nothing is in flight and its stage
+is drained, what its consumer sees is exactly the projection of the store under its own read mask. -/
+theorem C03_converges_partial (s₀ : Nat → Option M) (progs : Nat → List (WOp M)) (opts : Nat → SubOpts M)
+    (sched : List Act) (hord : ordered (initCfg s₀ progs opts) sched = true) :
+    let c : Cfg M := run (initCfg s₀ progs opts) sched
+    (∀ s, (c.subs s).live = true →
+      ((c.subs s).pending ++ inflight c s).foldl applyEv (c.subs s).rawView = c.store) ∧
+    (c.quiescent = true → ∀ s, (c.subs s).live = true → (c.subs s).pending = [] →
+      (c.subs s).view = fun i => (c.store i).map (c.subs s).mask) := by
   intro c
-  have h := (Inv.init s₀ progs uo).run sched hord
-  refine ⟨h.view, ?_⟩
-  intro hq s hs
-  have := h.view s hs
-  have hp : (run (initCfg s₀ progs uo) sched).pubs = [] := List.isEmpty_iff.mp hq
+  have h := (Inv.init true s₀ progs opts).run sched hord
+  refine ⟨h.view rfl, ?_⟩
+  intro hq s hs hp
+  have := h.view rfl s hs
+  have hpubs : (run (initCfg s₀ progs opts) sched).pubs = [] := List.isEmpty_iff.mp hq
   unfold inflight at this
-  rw [hp] at this
-  exact this
+  rw [hpubs, hp] at this
+  simp only [List.flatMap_nil, List.append_nil, List.foldl_nil] at this
+  funext i
+  simp only [Sub.view]
+  rw [this]
 
-/-- **Updates-only.**  Same runs: for an updates-only subscriber, folding the received events over the
+/-- **Updates-only.**  Same runs: for a live updates-only subscriber, folding the received events over the
 contents at its subscribe step (`base`, which it is assumed to know already) gives the final contents. -/
-theorem C03_updates_only (s₀ : Nat → Option M) (progs : Nat → List (WOp M)) (uo : Nat → Bool)
-    (sched : List Act) (hord : ordered (initCfg s₀ progs uo) sched = true) :
-    let c : Cfg M := run (initCfg s₀ progs uo) sched
-    c.quiescent = true → ∀ s, (c.subs s).registered = true → (c.subs s).updatesOnly = true →
-      (c.subs s).evs.foldl applyEv (c.subs s).base = c.store := by
-  intro c hq s hs _
-  exact (C03_converges_partial s₀ progs uo sched hord).2 hq s hs
+theorem C03_updates_only (s₀ : Nat → Option M) (progs : Nat → List (WOp M)) (opts : Nat → SubOpts M)
+    (sched : List Act) (hord : ordered (initCfg s₀ progs opts) sched = true) :
+    let c : Cfg M := run (initCfg s₀ progs opts) sched
+    c.quiescent = true → ∀ s, (c.subs s).live = true → (c.subs s).updatesOnly = true →
+      (c.subs s).pending = [] → (c.subs s).evs.foldl applyEv (c.subs s).base = c.store := by
+  intro c hq s hs _ hp
+  have h := (Inv.init true s₀ progs opts).run sched hord
+  have := h.view rfl s hs
+  have hpubs : (run (initCfg s₀ progs opts) sched).pubs = [] := List.isEmpty_iff.mp hq
+  unfold inflight at this
+  rw [hpubs, hp] at this
+  simpa [Sub.rawView] using this
 
-/-! ### The defect: an event overtakes a later commit -/
+/-- **No miss at subscribe — ALL schedules, no hypothesis.**  Every commit ordered after a live subscriber's
+subscribe step (`subAt ≤ k < nextSeq`) has been handed by the bus to that subscriber's stage (`got`) or is
+still owed to it; at quiescence it has been handed over.  (For a backpressured subscriber the stage passes
+every event on unchanged; for a lossy one it may be merged with later changes of the same id: C09.) -/
+theorem C03_no_miss_at_subscribe (s₀ : Nat → Option M) (progs : Nat → List (WOp M)) (opts : Nat → SubOpts M)
+    (sched : List Act) :
+    let c : Cfg M := run (initCfg s₀ progs opts) sched
+    (∀ s, (c.subs s).live = true → ∀ k, (c.subs s).subAt ≤ k → k < c.nextSeq →
+      k ∈ (c.subs s).got ∨ k ∈ (inflight c s).map (·.seq)) ∧
+    (c.quiescent = true → ∀ s, (c.subs s).live = true → ∀ k, (c.subs s).subAt ≤ k → k < c.nextSeq →
+      k ∈ (c.subs s).got) := by
+  intro c
+  have h := (Inv.init false s₀ progs opts).runAll sched
+  refine ⟨h.nomiss, ?_⟩
+  intro hq s hs k hk1 hk2
+  have hpubs : (run (initCfg s₀ progs opts) sched).pubs = [] := List.isEmpty_iff.mp hq
+  rcases h.nomiss s hs k hk1 hk2 with h1 | h1
+  · exact h1
+  · unfold inflight at h1
+    rw [hpubs] at h1
+    simp at h1
 
-/-- writer 0 sets id 0 to 1, writer 1 sets id 0 to 2; one subscriber -/
+/-- **The bus's listener list is exact — ALL schedules** (subscribe, cancel, `collect` in any order): every live
+subscriber is registered exactly once, no unregistered subscriber is listed, and no listener copy of a Send
+in progress names an unregistered subscriber. -/
+theorem C03_listeners_exact (s₀ : Nat → Option M) (progs : Nat → List (WOp M)) (opts : Nat → SubOpts M)
+    (sched : List Act) :
+    let c : Cfg M := run (initCfg s₀ progs opts) sched
+    (∀ s, (c.subs s).live = true → c.listeners.count s = 1) ∧
+    (∀ s, (c.subs s).registered = false → c.listeners.count s = 0) := by
+  intro c
+  have h := (Inv.init false s₀ progs opts).runAll sched
+  exact ⟨h.lisLive, h.lisUnreg⟩
+
+/-- **Dup harmless (backpressure).**  In an ordered run, a BACKPRESSURED live subscriber that was handed a
+duplicate of its seed — a commit ordered BEFORE its subscribe step (`k < subAt`) but published after it — still
+ends with exactly the projection of the store.  (For a LOSSY subscriber `ordered` forbids registering while a
+committed change is still waiting for its `Bus.Send`: `C03_lossy_seed_dup_fails` shows that this cannot be dropped.
+Together: duplicates of the seed are harmless exactly for backpressured subscribers.) -/
+theorem C03_dup_harmless (s₀ : Nat → Option M) (progs : Nat → List (WOp M)) (opts : Nat → SubOpts M)
+    (sched : List Act) (hord : ordered (initCfg s₀ progs opts) sched = true) :
+    let c : Cfg M := run (initCfg s₀ progs opts) sched
+    c.quiescent = true → ∀ s k, (c.subs s).live = true → (c.subs s).lossy = false →
+      k ∈ (c.subs s).got → k < (c.subs s).subAt → (c.subs s).pending = [] →
+      (c.subs s).view = fun i => (c.store i).map (c.subs s).mask := by
+  intro c hq s k hs _ _ _ hp
+  exact (C03_converges_partial s₀ progs opts sched hord).2 hq s hs hp
+
+/-! ### Witnesses on integers -/
+
+def plain (lossy : Bool) : SubOpts Int := ⟨false, lossy, id⟩
+
+/-- writer 0 sets id 0 to 1, writer 1 sets id 0 to 2 -/
 def twoWriters : Nat → List (WOp Int) := fun t =>
   if t = 0 then [.upd 0 (fun _ => some 1)] else if t = 1 then [.upd 0 (fun _ => some 2)] else []
 
-/-- subscribe; W0 commits 1; W1 commits 2; W1 publishes (snapshot, deliver); W0 publishes (snapshot, deliver) -/
+/-- subscribe; W0 commits 1; W1 commits 2; W1 publishes; W0 publishes; the consumer receives after each delivery -/
 def staleSched : List Act :=
-  [.sub 0, .commit 0, .commit 1, .snap 1, .deliver 1, .snap 0, .deliver 0]
+  [.sub 0, .commit 0, .commit 1, .snap 1, .deliver 1, .recv 0, .snap 0, .deliver 0, .recv 0]
 
-def staleRun : Cfg Int := run (initCfg (fun _ => none) twoWriters (fun _ => false)) staleSched
+def staleRun : Cfg Int := run (initCfg (fun _ => none) twoWriters (fun _ => plain false)) staleSched
 
-/-- **`C03_converges` fails on the code as it is**: a quiescent configuration in which the subscriber's view
-(id 0 ↦ 1) differs from the store (id 0 ↦ 2); the last event it received carries 1. -/
+/-- **`C03_converges` fails on the code as it is (1)**: a quiescent configuration, stage drained, in which the
+backpressured subscriber's view (id 0 ↦ 1) differs from the store (id 0 ↦ 2); the last event carries 1. -/
 theorem C03_converges_fails :
-    staleRun.quiescent = true ∧ (staleRun.subs 0).registered = true ∧
+    staleRun.quiescent = true ∧ (staleRun.subs 0).live = true ∧ (staleRun.subs 0).pending = [] ∧
     (staleRun.subs 0).view 0 = some 1 ∧ staleRun.store 0 = some 2 ∧
-    (staleRun.subs 0).evs.map (·.new) = [some 2, some 1] := by
+    (staleRun.subs 0).evs.map (·.new) = [some 2, some 1] ∧
+    ordered (initCfg (fun _ => none) twoWriters (fun _ => plain false)) staleSched = false := by
   decide
 
-/-- the witness schedule is (of course) not `ordered` -/
-example : ordered (initCfg (fun _ => none) twoWriters (fun _ => false)) staleSched = false := by decide
+/-- one writer: Add(0 ↦ 10) then Delete(0) -/
+def addThenDelete : Nat → List (WOp Int) := fun t =>
+  if t = 0 then [.upd 0 (fun _ => some 10), .del 0 (fun _ => true)] else []
 
-/-! ### Non-vacuity of the hypothesis: ordered runs that reach quiescence with real traffic -/
+/-- the Add commits; a LOSSY subscriber takes its snapshot (which has id 0) and listens; the Add is published (a
+duplicate of the seed) into the paused consumer's merge stage; the Delete commits and is published; only then
+does the consumer drain -/
+def seedDupSched : List Act :=
+  [.commit 0, .sub 0, .snap 0, .deliver 0, .commit 0, .deliver 0, .recv 0, .recv 0]
+
+def seedDupRun : Cfg Int := run (initCfg (fun _ => none) addThenDelete (fun _ => plain true)) seedDupSched
+
+/-- **`C03_converges` fails on the code as it is (2): a duplicate of the seed is NOT harmless under merging.**
+Single writer.  The merge stage cancels the duplicate ADD against the REMOVE, nothing is left to deliver, the
+drained view keeps id 0 although the store has deleted it.  The same schedule with a backpressured subscriber
+is `ordered` and converges (next example). -/
+theorem C03_lossy_seed_dup_fails :
+    seedDupRun.quiescent = true ∧ (seedDupRun.subs 0).live = true ∧ (seedDupRun.subs 0).pending = [] ∧
+    (seedDupRun.subs 0).evs = [] ∧ (seedDupRun.subs 0).view 0 = some 10 ∧ seedDupRun.store 0 = none ∧
+    (seedDupRun.subs 0).got = [0, 1] ∧
+    ordered (initCfg (fun _ => none) addThenDelete (fun _ => plain true)) seedDupSched = false := by
+  decide
+
+def seedDupSchedBP : List Act :=
+  [.commit 0, .sub 0, .snap 0, .deliver 0, .recv 0, .commit 0, .deliver 0, .recv 0]
+
+def seedDupRunBP : Cfg Int := run (initCfg (fun _ => none) addThenDelete (fun _ => plain false)) seedDupSchedBP
+
+/-- non-vacuity of `C03_dup_harmless`: the backpressured subscriber is handed the duplicate (`0 < subAt = 1`),
+the run is ordered, and the view converges (id 0 removed) -/
+example :
+    ordered (initCfg (fun _ => none) addThenDelete (fun _ => plain false)) seedDupSchedBP = true ∧
+    seedDupRunBP.quiescent = true ∧ (seedDupRunBP.subs 0).subAt = 1 ∧ (seedDupRunBP.subs 0).got = [0, 1] ∧
+    (seedDupRunBP.subs 0).pending = [] ∧ (seedDupRunBP.subs 0).view 0 = none ∧ seedDupRunBP.store 0 = none := by
+  decide
+
+/-! ### Non-vacuity of `ordered`: overlapping writers, churn with `collect`, a slow lossy consumer, a read mask -/
 
 def orderedSched : List Act :=
-  [.commit 0, .sub 0, .commit 1, .snap 0, .deliver 0, .snap 0, .sub 1, .deliver 0, .deliver 0]
+  [.commit 0, .sub 0, .commit 1, .snap 0, .deliver 0, .recv 0, .snap 0, .sub 1, .deliver 0, .recv 0,
+   .deliver 0, .recv 1]
 
-def orderedRun : Cfg Int := run (initCfg (fun _ => none) twoWriters (fun s => s == 1)) orderedSched
+def orderedOpts : Nat → SubOpts Int := fun s => if s = 1 then ⟨true, false, id⟩ else plain false
+
+def orderedRun : Cfg Int := run (initCfg (fun _ => none) twoWriters orderedOpts) orderedSched
 
 /-- two writers overlapping, a seeded subscriber registering between a commit and its publication (it gets
-the duplicate), an updates-only subscriber registering later: ordered, quiescent, both views equal the store -/
+the duplicate), an updates-only subscriber registering mid-publication: ordered, quiescent, both views = store -/
 example :
-    ordered (initCfg (fun _ => none) twoWriters (fun s => s == 1)) orderedSched = true ∧
+    ordered (initCfg (fun _ => none) twoWriters orderedOpts) orderedSched = true ∧
     orderedRun.quiescent = true ∧ orderedRun.store 0 = some 2 ∧
     (orderedRun.subs 0).evs.map (·.new) = [some 1, some 2] ∧ (orderedRun.subs 0).view 0 = some 2 ∧
-    (orderedRun.subs 1).registered = true ∧ (orderedRun.subs 1).view 0 = some 2 := by
+    (orderedRun.subs 1).live = true ∧ (orderedRun.subs 1).view 0 = some 2 := by
+  decide
+
+/-- one writer, three writes of id 0 and a delete of id 1 -/
+def churnProg : Nat → List (WOp Int) := fun t =>
+  if t = 0 then [.upd 0 (fun _ => some 11), .upd 0 (fun _ => some 12), .upd 1 (fun _ => some 13)] else []
+
+/-- A and C subscribe; a full write; A goes away; next write: listener copy taken, B subscribes mid-publication,
+the Send meets the dead listener, serves C and collects (A leaves the bus, B stays); a further write reaches B -/
+def churnSched : List Act :=
+  [.sub 0, .sub 1, .commit 0, .snap 0, .deliver 0, .recv 0, .deliver 0, .recv 1, .cancel 0,
+   .commit 0, .snap 0, .sub 2, .deliver 0, .deliver 0, .recv 1,
+   .commit 0, .snap 0, .deliver 0, .recv 1, .deliver 0, .recv 2]
+
+def churnRun : Cfg Int := run (initCfg (fun _ => none) churnProg (fun _ => plain false)) churnSched
+
+example :
+    ordered (initCfg (fun _ => none) churnProg (fun _ => plain false)) churnSched = true ∧
+    churnRun.quiescent = true ∧ churnRun.listeners = [1, 2] ∧ (churnRun.subs 0).live = false ∧
+    (churnRun.subs 2).live = true ∧ (churnRun.subs 2).view 0 = some 12 ∧ (churnRun.subs 2).view 1 = some 13 ∧
+    (churnRun.subs 1).view 0 = some 12 ∧ churnRun.store 1 = some 13 := by
+  decide
+
+/-- a lossy subscriber whose consumer sleeps through add, update, delete, re-add of one id and then drains one
+merged event; and a masked subscriber (mask = clamp to 0) -/
+def slowProg : Nat → List (WOp Int) := fun t =>
+  if t = 0 then [.upd 0 (fun _ => some 1), .upd 0 (fun _ => some 2), .del 0 (fun _ => true),
+                 .upd 0 (fun _ => some 4)] else []
+
+def slowSched : List Act :=
+  [.sub 0, .sub 1, .commit 0, .snap 0, .deliver 0, .deliver 0, .recv 1,
+   .commit 0, .snap 0, .deliver 0, .deliver 0, .recv 1,
+   .commit 0, .deliver 0, .deliver 0, .recv 1,
+   .commit 0, .snap 0, .deliver 0, .deliver 0, .recv 1, .recv 0]
+
+def slowOpts : Nat → SubOpts Int := fun s => if s = 0 then plain true else ⟨false, false, fun _ => 0⟩
+
+def slowRun : Cfg Int := run (initCfg (fun _ => none) slowProg slowOpts) slowSched
+
+example :
+    ordered (initCfg (fun _ => none) slowProg slowOpts) slowSched = true ∧
+    slowRun.quiescent = true ∧ (slowRun.subs 0).evs.length = 1 ∧ (slowRun.subs 0).got = [0, 1, 2, 3] ∧
+    (slowRun.subs 0).view 0 = some 4 ∧ (slowRun.subs 1).evs.length = 4 ∧ (slowRun.subs 1).view 0 = some 0 ∧
+    slowRun.store 0 = some 4 := by
   decide
 
 /-- a Delete publishes under the lock: a commit attempted meanwhile is disabled (the step is a no-op) -/
 example :
     let progs : Nat → List (WOp Int) := fun t =>
       if t = 0 then [.del 0 (fun _ => true)] else if t = 1 then [.upd 0 (fun _ => some 5)] else []
-    let c₀ : Cfg Int := initCfg (fun i => if i = 0 then some 3 else none) progs (fun _ => false)
+    let c₀ : Cfg Int := initCfg (fun i => if i = 0 then some 3 else none) progs (fun _ => plain false)
     (run c₀ [.sub 0, .commit 0, .commit 1]).store 0 = none ∧
     (run c₀ [.sub 0, .commit 0, .commit 1]).lock = some 0 ∧
     (run c₀ [.sub 0, .commit 0, .deliver 0, .commit 1]).store 0 = some 5 := by
-  decide
-
-/-! ### The lossy face of publish-after-unlock: a duplicate of the seed is cancelled by a later REMOVE
-
-`C03_converges_partial` treats the stages between bus and consumer as drained.  With a paused consumer the
-merge stage of a LOSSY `Collection.Pull` sees the duplicate ADD (the change was committed before the subscriber's
-snapshot but published after it) and cancels it against a following REMOVE, so the REMOVE never reaches a
-subscriber whose seed already contains the id.  Single writer.  Recorded in known_findings/C03.json and
-exhibited on the real code by the monitor `converges-lossy-seed-dup-hooked`. -/
-
-open Lossy in
-/-- **Dup not harmless under merging.**  Store initially empty; `Add(0, 10)` commits; the subscriber's snapshot
-(`seed`) already holds id 0; then the ADD is published and a `Delete(0)` follows while the consumer is paused.
-The pending list ends empty, the drained view keeps id 0, the store does not. -/
-theorem C03_lossy_seed_dup_fails :
-    let add : Chg := ⟨0, .add, some 10⟩
-    let del : Chg := ⟨0, .remove, none⟩
-    let seed : Nat → Option Int := applyChg (fun _ => none) add
-    let store : Nat → Option Int := [add, del].foldl applyChg (fun _ => none)
-    let pending := recv (recv [] add) del
-    pending = [] ∧ (pending.foldl applyChg seed) 0 = some 10 ∧ store 0 = none := by
-  decide
-
-open Lossy in
-/-- without the duplicate (the subscriber registered before the commit, its seed lacks the id) the same
-cancellation is harmless -/
-example :
-    let add : Chg := ⟨0, .add, some 10⟩
-    let del : Chg := ⟨0, .remove, none⟩
-    ((recv (recv [] add) del).foldl applyChg (fun _ => none)) 0 = ([add, del].foldl applyChg (fun _ => none)) 0 := by
   decide
 
 end ScVerif.C03
